@@ -1,6 +1,7 @@
 package store
 
 import (
+	"encoding/json"
 	"fmt"
 	"strings"
 	"testing"
@@ -310,3 +311,144 @@ var c05GCCollide = &histCheck{
 func TestVerif_C05_GCTrafficCollide(t *testing.T) { c05GCCollide.check(t) }
 
 func init() { c05GCCollide.register() }
+
+// Stress variant: real concurrency. Client goroutines write and read shared keys while a background actor keeps
+// requesting GC passes over everything below the head (plus the flusher / hint dumper loops of C04, yields injected at
+// the store's and GC's hook points). The recorded history is judged by the C04 checker (per-key linearizability with
+// porcupine, version/real-time invariants, final value = highest version, also after a restart): "clients writing and
+// reading the same bucket keep the guarantees of C04".
+func TestVerif_C05_Stress(t *testing.T) {
+	st := verifkit.StatsFor("TestVerif_C05_Stress")
+	defer verifkit.ClearCurrent()
+	rapid.Check(t, func(t *rapid.T) {
+		c := c04Gen(t)
+		c.GC = rapid.IntRange(1, 2).Draw(t, "gcmode")
+		c.CloseRace = false
+		if c.Flusher == 0 {
+			c.Flusher = rapid.IntRange(1, 2).Draw(t, "flusher_on") // GC reads the files: production always runs the flusher
+		}
+		// small files, so that several are below the head while the clients run
+		c.Cfg.DataFileMax = int64(256 * rapid.IntRange(3, 6).Draw(t, "dfm_blocks_stress"))
+		if c.Cfg.BodyMax > c.Cfg.DataFileMax-512 {
+			c.Cfg.BodyMax = c.Cfg.DataFileMax - 512
+		}
+		for ci := range c.Clients {
+			for oi := range c.Clients[ci] {
+				if int64(c.Clients[ci][oi].Size)+40 > c.Cfg.BodyMax {
+					c.Clients[ci][oi].Size = 0
+				}
+			}
+		}
+		// cold keys: written once at the beginning and then only read, so that every pass has live records to relocate
+		// under the readers' feet
+		hot := len(c.Cfg.Keys)
+		ncold := rapid.IntRange(1, 3).Draw(t, "ncold")
+		for i := 0; i < ncold; i++ {
+			c.Cfg.Keys = append(c.Cfg.Keys, []byte(fmt.Sprintf("cold-key-%d", i)))
+		}
+		var prologue []c04Op
+		for i := hot; i < len(c.Cfg.Keys); i++ {
+			prologue = append(prologue, c04Op{Kind: "set", K: i, Size: rapid.SampledFrom([]int{0, 10, 200}).Draw(t, "coldsize")})
+		}
+		c.Clients[0] = append(prologue, c.Clients[0]...)
+		for ci := range c.Clients {
+			n := rapid.IntRange(1, 6).Draw(t, "coldreads")
+			for j := 0; j < n; j++ {
+				pos := rapid.IntRange(len(prologue)*btoi(ci == 0), len(c.Clients[ci])).Draw(t, "coldpos")
+				op := c04Op{Kind: "get", K: rapid.IntRange(hot, len(c.Cfg.Keys)-1).Draw(t, "coldk")}
+				c.Clients[ci] = append(c.Clients[ci][:pos], append([]c04Op{op}, c.Clients[ci][pos:]...)...)
+			}
+		}
+		verifkit.SetCurrent("C05", "TestVerif_C05_Stress", c)
+		hist, final, fv, err := c04Execute(c)
+		if err != nil && isInfra(err) {
+			t.Fatalf("%v", err)
+		}
+		var labels []string
+		// a read that overlaps a pass may find that the record moved under it and answer a miss or a read error ("reader
+		// tolerates a position that moved under it ... retry-as-miss"): such reads say nothing; wrong values, and anything
+		// once no pass is active (the final reads, the reads after the restart), are judged as in C04
+		transient := 0
+		if err == nil {
+			hist, transient = dropTransientReads(hist)
+			labels, err = c04Check(c, hist, final, fv)
+		}
+		has := map[string]bool{}
+		for _, l := range labels {
+			has[l] = true
+		}
+		if transient > 0 {
+			labels = append(labels, "transient_miss_or_error_during_pass")
+		}
+		if c.gcPasses > 0 {
+			labels = append(labels, "gc_pass_during_run")
+		}
+		if c.gcPasses > 1 {
+			labels = append(labels, "gc_passes>1")
+		}
+		if c.GC == 2 {
+			labels = append(labels, "gc_merge")
+		}
+		if hooks.count("gc.rec.copied") > 0 {
+			labels = append(labels, "gc_relocated_records")
+		}
+		if c.Reopen {
+			labels = append(labels, "reopen")
+		}
+		nontrivial := err == nil && has["overlapping_writes"] && hooks.count("gc.rec.copied") > 0
+		sample := map[string]interface{}{"cfg": c.Cfg, "clients": len(c.Clients), "schedule": c.Schedule, "ops_recorded": len(hist), "gc_passes": c.gcPasses}
+		st.Case(labels, nontrivial, canon(c), sample)
+		if err != nil {
+			c.History, c.Final = hist, final
+			verifkit.Fail("C05", "TestVerif_C05_Stress", c, err.Error())
+			t.Fatalf("%v", err)
+		}
+	})
+}
+
+func init() {
+	replayers["TestVerif_C05_Stress"] = func(raw json.RawMessage) error {
+		c := &c04Case{}
+		if err := json.Unmarshal(raw, c); err != nil {
+			return err
+		}
+		if len(c.History) > 0 {
+			h, _ := dropTransientReads(c.History)
+			if _, err := c04Check(c, h, nil, nil); err != nil {
+				return err
+			}
+		}
+		for i := 0; i < 10; i++ {
+			hist, final, fv, err := c04Execute(c)
+			if err != nil {
+				return err
+			}
+			hist, _ = dropTransientReads(hist)
+			if _, err := c04Check(c, hist, final, fv); err != nil {
+				return err
+			}
+		}
+		return nil
+	}
+}
+
+func btoi(b bool) int {
+	if b {
+		return 1
+	}
+	return 0
+}
+
+// dropTransientReads removes the reads that overlapped a GC pass and answered a miss or a read error.
+func dropTransientReads(hist []c04Event) ([]c04Event, int) {
+	kept := hist[:0:0]
+	n := 0
+	for _, ev := range hist {
+		if ev.Kind == "get" && ev.InGC && (ev.Err != "" || (ev.Out == "" && ev.Ver == 0)) {
+			n++
+			continue
+		}
+		kept = append(kept, ev)
+	}
+	return kept, n
+}
